@@ -432,7 +432,7 @@ fn fam_futdrop<T: Payload>(c: &Case, cx: &mut Ctx) -> Outcome {
     let abw0 = sc.hits()[ABW_ENTER as usize];
     let peer_op = if recv_kind { Op::TrySend } else { Op::TryRecv };
     // serve the waiters registered before the future so that the future is at the head
-    let mut serve_before = |sc: &mut Scn<T>| {
+    let serve_before = |sc: &mut Scn<T>| {
         for _ in 0..before {
             sc.main.exec(peer_op);
         }
@@ -545,8 +545,27 @@ fn fam_wakerace<T: Payload>(c: &Case, cx: &mut Ctx) -> Outcome {
             // freeze the poller inside register_waker (new waker #1), let the peer run meanwhile, then release
             fp::arm(MAIN_ROLE, REGISTER_WAKER);
             let go2 = go.clone();
+            let polled = Arc::new(AtomicBool::new(false));
+            let polled2 = polled.clone();
             let coord = std::thread::spawn(move || {
-                let arrived = fp::wait_arrived(MAIN_ROLE, REGISTER_WAKER, Duration::from_secs(10));
+                // wait until the poller sits in the window (or its poll returned without going there)
+                let mut arrived = false;
+                let mut n = 0u32;
+                loop {
+                    if fp::is_arrived(MAIN_ROLE, REGISTER_WAKER) {
+                        arrived = true;
+                        break;
+                    }
+                    if polled2.load(Ordering::Acquire) {
+                        break;
+                    }
+                    n += 1;
+                    if n < 100 || cfg!(miri) {
+                        std::thread::yield_now();
+                    } else {
+                        std::thread::sleep(Duration::from_micros(50));
+                    }
+                }
                 go2.store(true, Ordering::Release);
                 // give the peer time to do whatever it can do while the poller sits there
                 std::thread::sleep(Duration::from_millis(if cfg!(miri) { 0 } else { 3 }));
@@ -558,6 +577,7 @@ fn fam_wakerace<T: Payload>(c: &Case, cx: &mut Ctx) -> Outcome {
             });
             last = 1;
             ready = poll(&mut sc, 1).is_ready();
+            polled.store(true, Ordering::Release);
             let arrived = coord.join().unwrap();
             go.store(true, Ordering::Release);
             if !arrived {
@@ -847,7 +867,7 @@ fn fam_fifo<T: Payload>(c: &Case, cx: &mut Ctx) -> Outcome {
         if i == mid {
             match cancel_kind {
                 0 | 1 => {
-                    let w = sc.spawn(Side::S, false, vec![if cancel_kind == 0 { Op::SendTimeout(30_000) } else { Op::SendOptTimeout(30_000) }]);
+                    let w = sc.spawn(Side::S, false, vec![if cancel_kind == 0 { Op::SendTimeout(if cfg!(miri) { 400_000 } else { 30_000 }) } else { Op::SendOptTimeout(if cfg!(miri) { 400_000 } else { 30_000 }) }]);
                     reg += 1;
                     if !sc.wait_registered(w, 0, reg) {
                         return sc.finish(cx.lin_budget, &mut cx.obs, &mut cx.samples, &mut cx.lin_states);
@@ -1036,12 +1056,15 @@ fn main() -> std::process::ExitCode {
     let classes: Vec<&'static str> = if classes_arg.is_empty() { CLASSES.to_vec() } else { classes_arg.split(',').map(|c| *CLASSES.iter().find(|x| **x == c).expect("class")).collect() };
     let only = a.get("case").cloned();
     let casefile = a.get("casefile").cloned();
-    payload::init(1 << 17);
+    if a.contains_key("trace") {
+        kverif::scn::TRACE.store(true, Ordering::Relaxed);
+    }
+    payload::init(if cfg!(miri) { 1 << 11 } else { 1 << 17 });
     fp::install();
     #[cfg(feature = "tsan")]
     kverif::tsan::install();
     // watchdog for the main actor itself: a non-blocking call that waits, or a drop that never returns
-    {
+    if !cfg!(miri) {
         let grace = Duration::from_millis(grace_ms + 10_000);
         std::thread::spawn(move || {
             let s = stuck::slot(MAIN_SLOT);
@@ -1078,14 +1101,29 @@ fn main() -> std::process::ExitCode {
     let mut per_family: BTreeMap<String, u64> = BTreeMap::new();
     let mut sigs: HashSet<u64> = HashSet::new();
     'outer: for fam in &fams {
-        let sp = space(fam, &classes);
         let picks: Vec<Case> = if let Some(o) = &only {
-            sp.iter().filter(|c| &c.id() == o).cloned().collect()
+            // fam:class:cap:a.b.c.d
+            let f: Vec<&str> = o.split(':').collect();
+            let n: Vec<u32> = f[3].split('.').map(|x| x.parse().unwrap()).collect();
+            if f[0] != *fam {
+                vec![]
+            } else {
+                vec![Case { fam: FAMILIES.iter().find(|x| **x == f[0]).expect("family"), class: CLASSES.iter().find(|x| **x == f[1]).expect("class"), cap: kverif::exec::parse_cap(f[2]), a: n[0], b: n[1], c: n[2], d: n[3], seed: 0 }]
+            }
         } else if exhaustive {
+            let sp = space(fam, &classes);
             sp.iter().enumerate().filter(|(i, _)| i % nshards == shard).map(|(_, c)| c.clone()).collect()
         } else {
+            // the parameter space is the same for every class: build it once, draw the class separately
+            let sp = space(fam, &classes[..1]);
             let mut r = rng.fork(hash_mix(shard as u64, fam.len() as u64));
-            (0..samples_n).map(|_| sp[r.below(sp.len() as u64) as usize].clone()).collect()
+            (0..samples_n)
+                .map(|_| {
+                    let mut c = sp[r.below(sp.len() as u64) as usize].clone();
+                    c.class = classes[r.below(classes.len() as u64) as usize];
+                    c
+                })
+                .collect()
         };
         for mut c in picks {
             c.seed = rng.next();
